@@ -1,6 +1,8 @@
 package sim
 
 import (
+	"context"
+	"crypto/sha256"
 	"fmt"
 	"sort"
 	"strings"
@@ -19,6 +21,13 @@ type c20 struct {
 	reqs  []*Req
 	sels  []ipld.Node
 	descs []string
+	// one sibling may be disturbed (its caller cancels it, or pauses it for good) while the
+	// others run: it is left out of the comparison, the others must not notice
+	victim   int // -1: none
+	how      string
+	at       int
+	acted    bool
+	pausedOK bool
 }
 
 func newC20() Scenario { return &c20{} }
@@ -56,6 +65,12 @@ func (s *c20) Build(w *World) {
 		s.descs = append(s.descs, fmt.Sprintf("%s@%s", desc, shortCid(root)))
 		s.reqs = append(s.reqs, s.a.NewReq(fmt.Sprintf("r%d", i), s.b, cidlink.Link{Cid: root}, sel))
 	}
+	s.victim = -1
+	if t.Chance(400) {
+		s.victim = t.Draw(n)
+		s.how = []string{"cancel", "pause"}[t.Draw(2)]
+		s.at = t.Draw(60)
+	}
 	w.AddProvider(func() []*Event {
 		var evs []*Event
 		for _, r := range s.reqs {
@@ -63,16 +78,55 @@ func (s *c20) Build(w *World) {
 				evs = append(evs, r.IssueEvent())
 			}
 		}
+		if s.victim >= 0 && !s.acted {
+			r := s.reqs[s.victim]
+			if r.Returned && !r.Done() && w.Step >= s.at {
+				evs = append(evs, Inject("api", "act|A|"+r.Label+"|"+s.how, func(string) {
+					s.acted = true
+					w.Probe("c20-sibling-" + s.how)
+					w.Effect("act A %s %s", r.Label, s.how)
+					if s.how == "cancel" {
+						r.Cancel()
+						return
+					}
+					go func() {
+						err := s.a.GS.Pause(context.Background(), r.ID)
+						w.Effect("act A %s pause returned %v", r.Label, err)
+						s.pausedOK = err == nil
+					}()
+				}))
+			}
+		}
 		return evs
 	})
 }
 
+// NextPhase: a sibling paused for good is cancelled at the end so that the run can finish.
+func (s *c20) NextPhase(w *World, phase int) bool {
+	if phase > 1 || s.victim < 0 || s.reqs[s.victim].Done() {
+		return false
+	}
+	r := s.reqs[s.victim]
+	w.Sync(func() {
+		w.Effect("heal: cancel %s", r.Label)
+		r.Cancel()
+	})
+	return true
+}
+
 func (s *c20) Describe(w *World) string {
-	return fmt.Sprintf("dag=%d split=%s reqs=%s", len(s.dag.Order), s.split.String(s.dag), strings.Join(s.descs, " | "))
+	d := ""
+	if s.victim >= 0 {
+		d = fmt.Sprintf(" disturbed=r%d:%s@%d", s.victim, s.how, s.at)
+	}
+	return fmt.Sprintf("dag=%d split=%s reqs=%s%s", len(s.dag.Order), s.split.String(s.dag), strings.Join(s.descs, " | "), d)
 }
 
 func (s *c20) Done(w *World) bool {
-	for _, r := range s.reqs {
+	for i, r := range s.reqs {
+		if i == s.victim && s.acted && s.how == "pause" {
+			continue
+		}
 		if !r.Done() {
 			return false
 		}
@@ -98,7 +152,16 @@ func isSubsequence(sub, seq []Visit) (int, bool) {
 }
 
 func (s *c20) Final(w *World) *Violation {
+	// R3a: whatever the requestor stored is the block its CID names
+	for _, c := range s.a.Store.Commits {
+		if want, ok := s.dag.Blocks[c.Cid]; !ok || sha256.Sum256(want) != c.Hash {
+			return &Violation{Property: "C20", Rule: "R3", Signature: "stored-wrong-bytes", Detail: fmt.Sprintf("block stored under %s at step %d is not the block of that CID", shortCid(c.Cid), c.Step)}
+		}
+	}
 	for i, r := range s.reqs {
+		if i == s.victim && s.acted {
+			continue // the disturbed sibling itself is not compared
+		}
 		if !r.Done() {
 			return &Violation{Property: "C20", Rule: "R0", Signature: "not-terminated", Detail: r.Label + " did not finish in a fault-free run"}
 		}
